@@ -71,7 +71,11 @@ func c12Failing(r *rt.Rand, text bool) *gen.Node {
 			gen.Bin("/", gen.Float("4.5"), gen.Bin("-", gen.Float("0.5"), gen.Float("0.5"))),
 			gen.Bin("/", gen.Int(3), gen.Call("float", gen.Str("0")))}[r.Intn(5)]
 	} else {
-		n = gen.Call("l2_distance", gen.Call("list", gen.Int(1), gen.Int(2)), gen.Call("list", gen.Int(1))) // unequal lengths
+		// unequal lengths, the shorter vector on either side
+		n = []*gen.Node{gen.Call("l2_distance", gen.Call("list", gen.Int(1), gen.Int(2)), gen.Call("list", gen.Int(1))),
+			gen.Call("l2_distance", gen.Call("list", gen.Int(1)), gen.Call("list", gen.Int(1), gen.Int(2))),
+			gen.Call("l2_distance", gen.Call("float_list", gen.Int(0), gen.Int(3)), gen.Call("float_list", gen.Int(4), gen.Int(0), gen.Int(7))),
+			gen.Call("cosine_distance", gen.Call("list", gen.Int(1)), gen.Call("list", gen.Int(1), gen.Int(2)))}[r.Intn(4)]
 	}
 	if text {
 		// the failing operand at every place of a chain of concatenations
